@@ -138,7 +138,7 @@ class Engine(w_fsa.Engine):
     def gen_config(self, rng, prop, tier):
         cfg = super().gen_config(rng, "C09", tier)
         cfg["engine"] = NAME
-        cfg["steps"] = rng.choice([6, 10, 16, 25, 40])
+        cfg["steps"] = rng.choice([6, 10, 16, 25, 40, 60] if tier == "thorough" else [6, 10, 16, 25, 40])
         cfg["i3"] = False
         cfg["i1"] = False
         cfg["faulty"] = rng.random() < 0.25
@@ -154,7 +154,7 @@ class Engine(w_fsa.Engine):
         cfg["repkind"] = rng.choice(["plain", "plain", "plain", "projective", "hyperbolic"])
         cfg["gens"] = GENS6 if (cfg["builtin_rate"] > 0 and rng.random() < 0.5) else GENS4
         cfg["multi"] = cfg["alpha"] == "double" and rng.random() < 0.7
-        cfg["Lmax"] = rng.randint(1, 5)
+        cfg["Lmax"] = rng.randint(1, 6 if tier == "thorough" else 5)
         w = {"construct": 10, "mutate": 14, "derive": 6, "io": 5, "reject": 1,
              "rep": 8, "enum": 50, "free": 6}
         style = rng.choice(["flat", "mutate", "enum", "memo"])
